@@ -170,6 +170,11 @@ Proof. unfold eff_max. destruct (Z.leb_spec (s_max sc) 0); [reflexivity|assumpti
 Definition codec_law (enc : codec -> Z -> bytes -> bytes) (dec : codec -> stream -> dres) : Prop :=
   forall c l b, dec c (enc c l b, E_EOF) = DStream (b, E_EOF).
 
+(* the same request declaring another length; an outcome with the declared length blanked *)
+Definition set_cl (w : wreq) (cl : Z) : wreq := {| w_ce := w_ce w; w_body := w_body w; w_cl := cl |}.
+Definition strip_cl (o : sout) : sout :=
+  match o with Handled ce _ s => Handled ce 0 s | _ => o end.
+
 Section Codec.
   Variable enc : codec -> Z -> bytes -> bytes.
   Variable dec : codec -> stream -> dres.
@@ -232,7 +237,7 @@ Section Codec.
     clookup sc.(s_custom) (hget (w_ce w)) = None ->
     hget (w_ce w) = s_empty -> In s_empty (eff_algs sc) ->
     (Z.of_nat (List.length (w_body w)) > eff_max sc)%Z ->
-    server sc w = Handled (w_ce w) (Z.of_nat (List.length (w_body w)))
+    server sc w = Handled (w_ce w) (w_cl w)
                           (firstn (Z.to_nat (eff_max sc)) (w_body w), E_TOOLARGE) /\
     Z.of_nat (List.length (firstn (Z.to_nat (eff_max sc)) (w_body w))) = eff_max sc.
   Proof.
@@ -241,6 +246,15 @@ Section Codec.
     change (slot_of_name s_empty) with SIdent. simpl.
     destruct (max_bytes_over (eff_max sc) (w_body w, E_EOF)) as [E1 E2]; [lia|exact Hlen|].
     simpl in E1, E2. rewrite E1. split; [reflexivity|exact E2].
+  Qed.
+
+  (* ---- the declared length (Content-Length / chunked) decides nothing ------------------------------ *)
+  Lemma server_ignores_declared_length_l sc w cl' :
+    strip_cl (server sc (set_cl w cl')) = strip_cl (server sc w).
+  Proof.
+    unfold Model.server, set_cl. simpl.
+    destruct (tget (decoders sc) (hget (w_ce w))) as [sl|]; [|reflexivity].
+    destruct (run_slot dec cdec sl _) as [[| |s']|]; reflexivity.
   Qed.
 
   (* ---- rejection -------------------------------------------------------------------------------- *)
@@ -275,7 +289,7 @@ Section Codec.
   Lemma identity_server_l sc w :
     hget (w_ce w) = s_empty -> In s_empty (eff_algs sc) -> clookup sc.(s_custom) s_empty = None ->
     (Z.of_nat (List.length (w_body w)) <= eff_max sc)%Z ->
-    server sc w = Handled (w_ce w) (Z.of_nat (List.length (w_body w))) (w_body w, E_EOF).
+    server sc w = Handled (w_ce w) (w_cl w) (w_body w, E_EOF).
   Proof.
     intros He Hin Hc Hlen. apply str_mem_In in Hin.
     unfold Model.server. rewrite tget_decoders, He, Hc, Hin.
@@ -313,8 +327,8 @@ Section Codec.
   Lemma client_compresses_l cc r c :
     client_validate cc = true -> is_compressed cc.(c_type) = true -> writer_codec cc.(c_type) = Some c ->
     hget r.(q_ce) = s_empty -> body_ok r = true ->
-    client cc r = CSent {| w_ce := r.(q_ce) ++ [cc.(c_type)];
-                           w_body := enc c (writer_level c (effective_level cc.(c_level))) (body_bytes r.(q_body)) |}.
+    let buf := enc c (writer_level c (effective_level cc.(c_level))) (body_bytes r.(q_body)) in
+    client cc r = CSent {| w_ce := r.(q_ce) ++ [cc.(c_type)]; w_body := buf; w_cl := blen buf |}.
   Proof.
     intros Hv Hc Hw He Hb. unfold Model.client. rewrite Hv, Hc, Hw. simpl.
     unfold round_trip. rewrite He. simpl. unfold compress. unfold body_ok in Hb.
@@ -386,7 +400,7 @@ Section Codec.
     In s_empty (eff_algs sc) -> ~ In s_empty (map fst sc.(s_custom)) ->
     let b := body_bytes r.(q_body) in
     (Z.of_nat (List.length b) <= eff_max sc)%Z ->
-    e2e cc sc r = Some (Handled r.(q_ce) (Z.of_nat (List.length b)) (b, E_EOF)).
+    e2e cc sc r = Some (Handled r.(q_ce) (if r.(q_stream) then (-1)%Z else blen b) (b, E_EOF)).
   Proof.
     intros Hc He Hin Hcu b Hb. unfold Model.e2e. rewrite identity_client_l by exact Hc. simpl. f_equal.
     apply clookup_none in Hcu.
@@ -404,7 +418,7 @@ Section Codec.
   Lemma lserver_sound_l sc w :
     let body1 := max_bytes (eff_max sc) (w_body w, E_EOF) in
     loabs (server sc w) =
-    lserver sc (fun c => ldabs (dec c body1)) (fun i => ldabs (cdec i body1)) (w_ce w) (Z.of_nat (List.length (w_body w))).
+    lserver sc (fun c => ldabs (dec c body1)) (fun i => ldabs (cdec i body1)) (w_ce w) (Z.of_nat (List.length (w_body w))) (w_cl w).
   Proof.
     pose proof (eff_max_pos sc) as HL. cbv zeta.
     unfold Model.server, lserver. destruct (tget (decoders sc) (hget (w_ce w))) as [sl|]; [|reflexivity].
